@@ -22,13 +22,13 @@ CLAIMED = {
     "C09": (
         "runtime reference-model monitor: the same algebra in f64 on the exact f32 inputs (products, probes, determinant, inverse with measured condition number) plus bit-exact algebraic relations between library results (then ≡ compose with operands swapped)",
         "Products of 1..6 random factors (translate, non-uniform ± scale, rotate_x/y/z by arbitrary and k·90° ± 1 ulp angles, shear, from_basis, scaled permutations): composite vs f64 product, probes through the composite vs through the parts in order, determinant vs f64 and multiplicativity (error relative to the Hadamard bound), inverse residual in both orders for measured condition number ≤ 1e3 (tolerance 3e-5·cond); constructor effects on points and the linear action on vectors of translation-free transforms; rotations length-preserving with det 1 and transpose = inverse; orient_y/orient_z; 3×3 compose/then/apply/apply_pt/transpose; all 24 row orders of a scaled permutation (every pivot pattern).",
-        "apply(&Vec3) is judged against its documented implicit-1 semantics; rotation sense as in the library's own documented examples; products with |det| ≤ 1e-4 are skipped because inverse() documents a debug panic for |det| ≤ f32::EPSILON.",
+        "apply(&Vec3) is judged against its documented implicit-1 semantics; rotation sense as in the library's own documented examples; inverses are not judged when the library's own f32 determinant is within 4·f32::EPSILON of zero, because inverse() documents a debug panic for |det| ≤ f32::EPSILON.",
         "DESIGN.md §5 C09",
     ),
     "C19": (
         "runtime algebraic monitor over observed step outputs (step matrix over GF(2) observed on the 64 unit states, linearity monitored on every pair, order of the matrix computed offline ⇒ single cycle of length 2^64−1) + range monitors on generator states that are solved for by GF(2) linear algebra so that a draw consumes a chosen mantissa",
-        "Period: f(0)=0, the observed 64×64 matrix M is invertible, M^(2^64−1)=I and M^((2^64−1)/p)≠I for all seven prime factors p; linearity f(a⊕b)=f(a)⊕f(b) and agreement with M on ≥ 2·10^6 random/structured pairs; f(M⁻¹y)=y on 10^6 outputs; equal seeds ⇒ equal sequences. Ranges: for every one of the 2^23 mantissas a float draw can consume a state is solved for and verified through the real call, then start ≤ sample < end is required for 12 ranges (unit, symmetric, negative, far from zero, one-ulp-wide, tiny, huge) and Bernoulli(p ≤ 0)/(p ≥ 1) never/always; integer ranges whose width fits i32 on random states and states solved to produce extreme low words; disk/ball inside, circle/sphere unit length on random states and on the 2^18 states whose two next draws hit the centre; array/vector/point/tuple distributions equal scalar draws from a cloned generator bit-for-bit.",
-        "The period conclusion is conditional on linearity, which is monitored, not proved. The three-draw system that would put a sphere sample exactly at the centre is inconsistent, so the sphere is driven on random states only.",
+        "Period: the observed 64×64 matrix M is invertible, M^(2^64−1)=I and M^((2^64−1)/p)≠I for all seven prime factors p; linearity f(a⊕b)=f(a)⊕f(b) and agreement with M on ≥ 2·10^6 random/structured pairs; f(M⁻¹y)=y on 10^6 outputs; equal seeds ⇒ equal sequences. Ranges: for every one of the 2^23 mantissas a float draw can consume a state is solved for and verified through the real call, then start ≤ sample < end is required for 12 ranges (unit, symmetric, negative, far from zero, one-ulp-wide, tiny, huge) and Bernoulli(p ≤ 0)/(p ≥ 1) never/always; integer ranges whose width fits i32 on random states and states solved to produce extreme low words; disk/ball inside, circle/sphere unit length on random states and on the 2^18 states whose two next draws hit the centre; array/vector/point/tuple distributions equal scalar draws from a cloned generator bit-for-bit.",
+        "The period conclusion is conditional on linearity, which is monitored, not proved. The three-draw system that would put a sphere sample exactly at the centre is inconsistent (69 equations, 64 unknowns); states are solved for the top 20 bits of each mantissa instead (within 2e-6 of the centre).",
         "DESIGN.md §5 C19",
     ),
     "C17": (
@@ -100,7 +100,7 @@ CLAIMED = {
     "C04": (
         "runtime reference-model monitor over the Scanline event stream of tri_fill: f64 edge-function coverage oracle with a 0.001 px band, structural stream checks (strictly increasing y, no pixel twice, xs length = fragment count), exhaustive half-pixel lattice + adversarial random families, all six vertex orders",
         "Every ordered vertex triple of a half-pixel lattice (531 441 triangles quick, 4.8 M thorough) and random integer/half-integer/dyadic/float, flat, one-row, sliver, sub-pixel and zero-area triangles (extent ≤ 64 px, all six vertex orders) are filled by the real tri_fill; every pixel centre of the bounding box +1 px is judged: inside and ≥ 0.001 px from every edge ⇒ in exactly one span, outside and ≥ 0.001 px away ⇒ in none. Fans of triangles sharing edges and a vertex are judged on their union. Extents 128..2048 are driven too; there the known f32 edge drift (finding F9) is matched by a narrow drift model, anything larger is a violation.",
-        "f64 edge functions on exact f32 vertices are treated as exact; non-negative coordinates only (the API cannot represent others).",
+        "f64 edge functions on exact f32 vertices are treated as exact; triangles reaching into negative coordinates are judged on the pixels unsigned coordinates can address.",
         "DESIGN.md §5 C04",
     ),
     "C05": (
@@ -121,6 +121,31 @@ CLAIMED = {
         "Trusts f64 floor on exact f32 values and Rust's own bounds checks to turn out-of-bounds reads into panics (Miri pass covers the case where they would not). Both debug-assertion and release builds are exercised.",
         "DESIGN.md §5 C12",
     ),
+}
+
+
+# What was added after the first build (seed rounds and the per-monitor
+# reviews in audit/); appended to the level text of each check.
+ADDED = {
+    "C01": " Added since: a large_targets stream (frames up to 2048 px, every pixel judged; violations that the drift model of known finding F9 explains carry their own signatures), eleven attribute types (incl. Angle, Point3, nested tuples, colour+point), scenes scaled by 2^k (k = −60..60), w over 3.5 decades in one triangle, sub-pixel and few-pixel triangles on pixel centres, 1/8-pixel lattice geometry, +inf prior depth, colour-only overlaps judged against every covering triangle, non-finite clipper output reported, Batch on colour-only targets, mirrored viewports.",
+    "C02": " Added since: a stream of scenes whose vertices lie bit-exactly on frustum planes (vertex/edge/whole triangle in a plane, touching from outside, corner touches) in multi-triangle calls, frames up to 4096 px (elongated and realistic sizes), an extra pass with every fragment written for scenes whose flags could hide a stray fragment, mirrored viewports, free (log-uniform) near/far/focal, off-axis and flipped orthographic boxes, triangles naming a vertex twice; generators aimed at the two defects the thorough tier found (F14, F15).",
+    "C03": " Added since: scale invariance (clip(2^k·T) = 2^k·clip(T) bit for bit, k down to −120), near-plane relative distances 1e-7..1e-2, degenerate inputs range-checked, batches of 0/1/64/1000 triangles with each member's output judged absolutely, eleven attribute types, position tolerance and band tightened to 3e-6·scale.",
+    "C04": " Added since: triangles reaching into negative coordinates judged on the pixels unsigned coordinates can address, small triangles at offsets up to 65536, all six vertex orders at extents up to 2048, a per-triangle drift allowance (rows stepped, not the frame size) for known finding F9, judging continues past drift-class hits.",
+    "C05": " Added since: eleven attribute types (Angle, Point3, nested tuples, colour+point), reciprocal depths from 1e-4 to 1e3 and attribute magnitudes over fourteen decades, tied/constant/zero attribute components, rounding floor scaled by the depth ratio.",
+    "C06": " Added since: histories over prior frames of every depth (incl. ±inf), depths over twelve decades and a few ulps apart, per-call depth_sort settings and empty calls, windowed targets whose colour and depth parents differ in size and offset, cut-out materials; painter clause on colour-only targets, with slabs crossing the near/far planes and with up to 100 triangles, with a floor on pixels where the sort matters.",
+    "C07": " Added since: face culling crossed with the write masks, calls with an empty triangle list, prior depths ±inf/−0.0/−1e30, a shader that discards every fragment, culling under mirrored viewports; the shader-invocation count is recorded, not judged.",
+    "C08": " Added since: a confinement flood test (a quad covering the whole view must light exactly the viewport ∩ frame, pixels on the clip fan's diagonals excepted), five viewport spellings incl. open-ended ranges, near/far skip band scaled with the projection's z row.",
+    "C09": " Added since: all three axis images of orient_y/orient_z against the f64 construction (sign pinned by the hint), dense 4×4 matrices (general last row) for determinant/compose/multiplicativity, inverse gated on the library's own determinant instead of |det| ≤ 1e-4, uniform scales 0.03..30, angles from 1e-6 to 1e4 rad.",
+    "C11": " Added since: 15 range spellings (mixed inclusive/exclusive axes, ..=b, explicit Bound pairs with an excluded start), out-of-bounds forms mirrored on both axes, the owned buffer as receiver itself and via Buf2::slice_mut / the AsMutSlice2 trait, five kinds of copy_from source, stride()/is_contiguous() observed, constructor contents (new, new_from, new_with, data_mut) and rejects of dimensions whose size arithmetic wraps in 32 bits, immutable slicing out of bounds must panic too.",
+    "C12": " Added since: per-axis expectations (a special value on one axis does not excuse the other), textures up to 4097 px a side, relative texel boundaries k/size ± 1 ulp, coordinates up to 2^31 on power-of-two textures, borrowed textures built by Slice2::new with a stride and as slices of slices; the same addressing through both samplers and both entry points in every float backend build (C20's binaries).",
+    "C13": " Added since: seven ways of handing an image to the writer (by value, MutSlice2, Slice2::new with stride and surplus, slice of slice, …), a writer that takes short writes with EINTR, an independent P6 reader of the written stream, images larger than the 8 KiB I/O buffers, save_ppm/load_pnm through real files, readers delivering short chunks with EINTR and failing mid-stream, form feed as whitespace, up to three comments per gap with arbitrary bytes.",
+    "C14": " Added since: an independent reference reader that judges mutated-but-still-well-formed input, decimal literals next to f32 midpoints (incl. strictly between the midpoint and its f64 neighbours), literal syntax variants (−0, leading/trailing point, padded exponents, leading zeros), lines of thousands of characters, meshes whose indices exceed 8 and 16 bits, non-ASCII bytes in comments, read_obj through short-chunk readers (raw and buffered) and load_obj through real files.",
+    "C15": " Added since: radii over ten decades with a per-axis weld tolerance, extents and partial azimuth ranges honoured, open surfaces checked as manifolds with boundary (Euler characteristic of a tube/disk), Platonic regularity (vertex/face counts, equal edges, circumradius), sine-based degeneracy threshold, capped partial lathes.",
+    "C16": " Added since: a float stream over all magnitudes of [0,1] (zero of either sign, subnormal, log-uniform to 1e-38, within ulps of 1, ulp-close channel pairs), 8-bit HSL→RGB judged against the real-number conversion, exact range checks, Affine::add with differences over all of i32 and for three-channel and HSL colours, alpha paths.",
+    "C17": " Added since: Angle and Color3f, polygons of small extent far from the origin and with per-point magnitudes, t palette incl. tiny negatives, 1 + ulps, ±inf and huge values, tangents judged at ends and joins, an extent-relative tangent bound, BezierSpline::new's length contract and from_rays.",
+    "C18": " Added since: wrap inputs bit-equal to the interval ends, an ulp either side of both, and up to 10^4 interval lengths away; intervals as users write them (degs/turns constructors, min up to ±1e4); the upper end is accepted only where rounding can produce it; zeros of either sign in vectors; compositions within 0.01° of the poles.",
+    "C19": " Added since: 30 fixed float ranges (zero and subnormal ends, power-of-two ends reached by rounding, overflowing width), random ranges × the mantissas where rounding bites, three low-bit completions per mantissa, integer extremes in either half of the output word, states solved to land within 2e-6 of the centre of the ball and on the rim of the disk, samples() and generator end-state checks.",
+    "C20": " Added since: every backend built in a plain release profile as well (8 builds), domain edge points (signed zeros, axes of atan2, ±1), zero-base powf, a wide-domain block (log-uniform magnitudes to 1e±30 for periodic functions, atan2 of independent magnitudes, asin/acos within ulps of ±1, exp over its whole range), full-range sqrt/recip_sqrt by bit pattern, wrap judged against the std result incl. exact multiples, both samplers with special coordinates, the functions reached through Angle / free functions / Vector::len.",
 }
 
 NOT_APPLICABLE = {
@@ -144,7 +169,7 @@ def main():
                 "evidence_file": "/verif/evidence/%s.json" % p,
                 "replay_cmd_template": "./check %s --replay {path}" % p,
                 "engine": "rffp" if p == "C20" else "rfmon",
-                "level_claimed": {"category": "exploration", "text": text, "design_ref": ref},
+                "level_claimed": {"category": "exploration", "text": text + ADDED.get(p, ""), "design_ref": ref},
                 "level_note": note,
                 "technique": tech,
             })
@@ -174,7 +199,7 @@ def main():
                 "name": "rffp",
                 "path": "/verif/fpcfg",
                 "serves_properties": ["C20"],
-                "kind_free_text": "the C20 monitor, built four times against retrofire-core with features none | libm | mm | std into separate target directories (so cargo cannot unify the features); shares the rftk toolkit (/verif/tk) with rfmon",
+                "kind_free_text": "the C20 monitor, built eight times against retrofire-core (features none | libm | mm | std × a checking profile with debug assertions and overflow checks and a plain release profile) into separate target directories (so cargo cannot unify the features); shares the rftk toolkit (/verif/tk) with rfmon",
             },
             {
                 "name": "check",
